@@ -710,6 +710,7 @@ def gen_absorbed(rng: random.Random) -> tuple[e3.Project, list, list, str, dict 
     commands = {}
     scripts = {}
     msteps = []                     # engine description: (label, inputs, variables, outputs, constant?)
+    mamend = []                     # (label of a script step, its script, the paths it amends)
 
     def tracked():
         k = rng.choice([0, 1, 1, 2])
@@ -746,6 +747,9 @@ def gen_absorbed(rng: random.Random) -> tuple[e3.Project, list, list, str, dict 
                                     {"op": "read", "paths": [f"a{i}.out"], "required": True}, {"op": "auto"}]
             decl.append({"op": "static", "paths": [f"wb{i}.py"]})
             decl.append({"op": "run", "label": f"./wb{i}.py", "inp": [], "out": [f"wb{i}.out"]})
+            # engine: the script is the first declared input; what it amends is a function of the script's content
+            msteps.append((f"./wb{i}.py", [f"wb{i}.py"], [], [f"wb{i}.out"], False))
+            mamend.append((f"./wb{i}.py", f"wb{i}.py", [f"a{i}.out"]))
             step(f"tw{i}", [f"wb{i}.out"], [f"tw{i}.out"], tracked())
     with_direct = rng.random() < 0.5
     if with_direct:
@@ -792,7 +796,14 @@ def gen_absorbed(rng: random.Random) -> tuple[e3.Project, list, list, str, dict 
         edited.append(ENV_PREFIX + "VA")
     project = e3.Project(dict(sources), {"scripts": scripts, "commands": commands}, env)
     engine = None
-    if "amend" not in feats:
+    new_match = any(e["op"] == "write" and e["path"] == "gq_7.txt" for e in edits)
+    if "amend" in feats and variant == "chain" and not new_match:
+        # fixed plan with amended inputs: the gated engine of Section Amend
+        srcs = dict(sources)
+        srcs.update({script: "script " + script for _l, script, _a in mamend})
+        engine = {"steps": msteps, "amend": mamend, "sources": srcs, "env": dict(env),
+                  "edits": [e for e in edits if e["op"] in ("write", "setenv")]}
+    elif "amend" not in feats:
         # the plan after the edit: a new match of the pattern adds its absorber (declared by the rerun owner)
         after = list(msteps)
         if any(e["op"] == "write" and e["path"] == "gq_7.txt" for e in edits):
@@ -852,6 +863,13 @@ def engine_term(engine: dict, flavour: str, first_ran: list, cone_log: dict) -> 
     outs1 = sorted(p for s in after for p in s[3])
     chg0 = common.coq_list([f"({pid[p]}, true)" for p in outs0])
     chg1 = common.coq_list([f"({pid[p]}, {common.coq_bool(p in cone_log['changed'])})" for p in outs1])
+    if engine.get("amend"):
+        tab = common.coq_list([f"({labels[l]}, {num(cid, 'file:' + engine['sources'][script], 1)}, "
+                               f"{common.coq_list([str(pid[p]) for p in paths])})"
+                               for l, script, paths in engine["amend"]])
+        return (f"let proj := {p0} in check_cone_amend (absorb_run {common.coq_list(consts)}) {tab} proj empty_asys "
+                f"[({s0}, {e0}, {ids(first_ran)}, [], {chg0}); "
+                f"({s1}, {e1}, {ids(cone_log['ran'])}, {ids(cone_log['skipped'])}, {chg1})]")
     ph0 = f"({p0}, ({s0}, {e0}, {ids(first_ran)}, [], {chg0}))"
     ph1 = f"({p1}, ({s1}, {e1}, {ids(cone_log['ran'])}, {ids(cone_log['skipped'])}, {chg1}))"
     return f"check_cone_dyn (absorb_run {common.coq_list(consts)}) [] empty_sys [{ph0}; {ph1}]"
